@@ -58,7 +58,8 @@ void NameRange(const void* addr, std::size_t size, const std::string& name);
 void NameOffsetAlias(long off, const std::string& alias);
 // Address of the object of the most recent yaclib_std operation of the calling fiber/thread (also ambient ones);
 // used to calibrate field names: perform one known operation, then NameField(LastOpObject(), "...").
-const void* LastOpObject();
+// back = k: the object of the k-th operation before the most recent one (k < 8)
+const void* LastOpObject(int back = 0);
 // Name of the range/field containing addr ("" if unknown).
 std::string NameOf(std::uintptr_t addr);
 
